@@ -10,7 +10,8 @@ from .harness import apply_text, unasync
 
 A = "httpcore/_async/"
 CORE = ["connection.py", "connection_pool.py", "http11.py", "http2.py", "http_proxy.py", "interfaces.py", "socks_proxy.py"]
-SHARED = ["httpcore/_models.py", "httpcore/_synchronization.py", "httpcore/_trace.py", "httpcore/_utils.py"]
+SHARED = ["httpcore/_models.py", "httpcore/_synchronization.py", "httpcore/_trace.py", "httpcore/_utils.py",
+          "httpcore/_backends/sync.py", "httpcore/_backends/anyio.py", "httpcore/_backends/trio.py", "httpcore/_backends/mock.py", "httpcore/_backends/auto.py"]
 VARIANTS: list[dict[str, T.Any]] = []
 
 
@@ -146,7 +147,7 @@ text("retry-guard-lt-one", A + "connection.py", "if retries_left <= 0:", "if ret
 text("backoff-shift", A + "connection.py", "        yield factor * 2**n", "        yield factor * (1 << n)")
 text("timeout-helper", A + "http11.py", "        timeouts = request.extensions.get(\"timeout\", {})\n        timeout = timeouts.get(\"write\", None)\n\n        with map_exceptions",
      "        timeout = request.extensions.get(\"timeout\", {}).get(\"write\", None)\n\n        with map_exceptions")
-text("extra-trace", A + "http11.py", "        network_stream = self._network_stream\n", "        async with Trace(\"got_headers\", logger, request, kwargs):\n            pass\n        network_stream = self._network_stream\n")
+text("extra-trace", A + "http11.py", "            network_stream = self._network_stream\n", "            async with Trace(\"got_headers\", logger, request, kwargs):\n                pass\n            network_stream = self._network_stream\n")
 text("tls-set-literal", A + "connection.py", "if self._origin.scheme in (b\"https\", b\"wss\"):", "if self._origin.scheme in {b\"wss\", b\"https\"}:")
 text("upgrade-cond-rewritten", A + "http11.py", "            if (status == 101) or (\n                (request.method == b\"CONNECT\") and (200 <= status < 300)\n            ):",
      "            is_connect = request.method == b\"CONNECT\"\n            if status == 101 or (is_connect and 200 <= status <= 299):")
@@ -184,3 +185,29 @@ def _extract_timeout(tmp: str) -> bool:
 
 
 V("extract-timeout-helper", _extract_timeout)
+
+
+# ---- transport layer (backends, primitives) ---------------------------------------------------------------------------
+def _rename_shared(tmp: str) -> bool:
+    for rel in SHARED:
+        _rewrite(tmp, rel, RenameLocals())
+    return True
+
+
+V("rename-locals-shared", _rename_shared)
+B_ = "httpcore/_backends/"
+text("tl-write-loop-len", B_ + "sync.py", "            while buffer:\n                self._sock.settimeout(timeout)", "            while len(buffer) > 0:\n                self._sock.settimeout(timeout)")
+text("tl-write-count-renamed", B_ + "sync.py", "                n = self._sock.send(buffer)\n                buffer = buffer[n:]", "                sent = self._sock.send(buffer)\n                buffer = buffer[sent:]")
+text("tl-anyio-send-positional", B_ + "anyio.py", "                await self._stream.send(item=buffer)", "                await self._stream.send(buffer)")
+text("tl-read-through-local", B_ + "sync.py", "            return self._sock.recv(max_bytes)", "            data = self._sock.recv(max_bytes)\n            return data")
+text("tl-trio-read-direct", B_ + "trio.py", "                data: bytes = await self._stream.receive_some(max_bytes=max_bytes)\n                return data", "                return await self._stream.receive_some(max_bytes=max_bytes)")
+text("tl-is-readable-local", B_ + "sync.py", "        if info == \"is_readable\":\n            return is_socket_readable(self._sock)\n        return None\n\n\nclass SyncBackend", "        if info == \"is_readable\":\n            sock = self._sock\n            return is_socket_readable(sock)\n        return None\n\n\nclass SyncBackend")
+text("tl-event-wait-positional", "httpcore/_synchronization.py", "        if not self._event.wait(timeout=timeout):", "        if not self._event.wait(timeout):")
+text("tl-close-docstring", B_ + "sync.py", "    def close(self) -> None:\n        self._sock.close()\n\n    def start_tls(\n        self,\n        ssl_context: ssl.SSLContext,\n        server_hostname: str | None = None,\n        timeout: float | None = None,\n    ) -> NetworkStream:\n        exc_map",
+     "    def close(self) -> None:\n        \"\"\"Release the socket.\"\"\"\n        self._sock.close()\n\n    def start_tls(\n        self,\n        ssl_context: ssl.SSLContext,\n        server_hostname: str | None = None,\n        timeout: float | None = None,\n    ) -> NetworkStream:\n        exc_map")
+text("tl-connect-map-inline-annotation", B_ + "sync.py", "        exc_map: ExceptionMapping = {\n            socket.timeout: ConnectTimeout,\n            OSError: ConnectError,\n        }\n\n        with map_exceptions(exc_map):\n            sock = socket.create_connection(",
+     "        exc_map = {socket.timeout: ConnectTimeout, OSError: ConnectError}\n\n        with map_exceptions(exc_map):\n            sock = socket.create_connection(")
+text("derived-request-extensions-local", A + "http_proxy.py", "                connect_request = Request(\n                    method=b\"CONNECT\",\n                    url=connect_url,\n                    headers=connect_headers,\n                    extensions=request.extensions,\n                )",
+     "                connect_extensions = request.extensions\n                connect_request = Request(\n                    method=b\"CONNECT\",\n                    url=connect_url,\n                    headers=connect_headers,\n                    extensions=connect_extensions,\n                )")
+text("flow-wait-lt-one", A + "http2.py", "        while flow <= 0:", "        while flow < 1:")
+text("refusal-msg-fstring", A + "http_proxy.py", "                    msg = \"%d %s\" % (connect_response.status, reason_str)", "                    msg = f\"{connect_response.status} {reason_str}\"")
